@@ -65,6 +65,7 @@ type scriptReader struct {
 	longPause int
 	tol       time.Duration
 	idleEach  int
+	dataSince bool // a data-bearing read has happened since the last injected EOF
 }
 
 func (r *scriptReader) Read(p []byte) (int, error) {
@@ -79,8 +80,11 @@ func (r *scriptReader) Read(p []byte) (int, error) {
 	if r.pos >= len(r.data) {
 		return 0, io.EOF
 	}
-	if r.eofAt[r.call] {
-		return 0, io.EOF // transient: the next call supplies data again
+	if r.eofAt[r.call] && r.dataSince {
+		// transient and always single: the handler must see data between two interruptions, otherwise a
+		// machine stall between them could legitimately make it give up (its decision uses the wall clock)
+		r.dataSince = false
+		return 0, io.EOF
 	}
 	if r.idleEach > 0 && r.call%r.idleEach == 0 {
 		return 0, nil // nothing to read just now (allowed by io.Reader, e.g. a serial line with a read time-out)
@@ -99,6 +103,7 @@ func (r *scriptReader) Read(p []byte) (int, error) {
 	}
 	copy(p, r.data[r.pos:r.pos+n])
 	r.pos += n
+	r.dataSince = true
 	if r.eofWith && r.pos >= len(r.data) {
 		return n, io.EOF
 	}
